@@ -6,3 +6,4 @@ From Verif.Tie.Parse Require Scanners Alpm Gem Maven.
 From Verif.Tie.Parse Require RangeCommon RangeTie CranRange DebianRange RpmRange GentooRange ApacheRange NugetRange NpmRange.
 From Verif.Tie.Parse Require RangeOptTie RangeLazyTie AlpineRange AlpmRange GithubRange MattermostRange HexRange GolangRange.
 From Verif.Tie.Parse Require DebianRangeClosed RpmRangeClosed GentooRangeClosed NugetRangeClosed NpmRangeClosed.
+From Verif.Tie.Parse Require RangeInv SemverRange CargoRange GemRange PypiRange ConanRange MavenRange ComposerRange.
